@@ -87,7 +87,13 @@ impl Check for C29 {
             if !drive(cx, &mut doc, rng, enc, k, &mut counter, "isolated-autocommit", &log, 0) {
                 return;
             }
+            if cx.verbose {
+                eprintln!("  ! invariants after isolated edits (open tx): {:?}", doc.verif_check_invariants());
+            }
             doc.commit_with(CommitOptions::default().with_time(11));
+            if cx.verbose {
+                eprintln!("  ! invariants after isolated commit: {:?}", doc.verif_check_invariants());
+            }
             // a second isolated commit on top
             if rng.chance(50) {
                 if !drive(cx, &mut doc, rng, enc, 3, &mut counter, "isolated-autocommit-2", &log, 0) {
@@ -95,7 +101,13 @@ impl Check for C29 {
                 }
                 doc.commit_with(CommitOptions::default().with_time(12));
             }
+            if cx.verbose {
+                eprintln!("  ! invariants before integrate: {:?}", doc.verif_check_invariants());
+            }
             doc.integrate();
+            if cx.verbose {
+                eprintln!("  ! invariants after integrate: {:?}", doc.verif_check_invariants());
+            }
             new_changes = doc.get_changes(&[]).into_iter().filter(|c| !known.contains(&c.hash())).collect();
         } else {
             cx.count("variant_transaction_at");
